@@ -202,6 +202,7 @@ func cmdRoleRun(args []string) int {
 	methods := []struct{ api, m, kind string }{
 		{"etcd", "Txn", "write"}, {"etcd", "Range", "read"}, {"etcd", "Watch", "watch"}, {"etcd", "RangeStream", "read"},
 		{"etcd", "Get", "read"}, {"etcd", "RangeAtRev", "read"}, {"etcd", "CountAtRev", "read"}, {"etcd", "ListPartition", "read"},
+		{"etcd", "RangeOptions", "read"}, {"etcd", "GetSerializable", "read"},
 		{"brain", "Create", "write"}, {"brain", "Update", "write"}, {"brain", "Delete", "write"}, {"brain", "Compact", "write"},
 		{"brain", "Get", "read"}, {"brain", "Range", "read"}, {"brain", "Count", "read"}, {"brain", "ListPartition", "read"},
 		{"brain", "RangeStream", "read"}, {"brain", "Watch", "watch"},
@@ -245,6 +246,10 @@ func cmdRoleRun(args []string) int {
 						_, cerr = es.Range(ctx, &etcdserverpb.RangeRequest{Key: lo, RangeEnd: hi, Revision: 101})
 					case "etcd.CountAtRev":
 						_, cerr = es.Range(ctx, &etcdserverpb.RangeRequest{Key: lo, RangeEnd: hi, Revision: 101, CountOnly: true})
+					case "etcd.RangeOptions":
+						_, cerr = es.Range(ctx, &etcdserverpb.RangeRequest{Key: lo, RangeEnd: hi, Serializable: true, KeysOnly: true, Limit: 5})
+					case "etcd.GetSerializable":
+						_, cerr = es.Range(ctx, &etcdserverpb.RangeRequest{Key: env.Keys.Raw(1), Serializable: true})
 					case "etcd.ListPartition":
 						_, cerr = es.Range(ctx, &etcdserverpb.RangeRequest{Key: lo, RangeEnd: hi, Revision: etcd.GetPartitionMagic})
 					case "etcd.Watch", "etcd.RangeStream":
